@@ -414,7 +414,33 @@ func tree(t *rapid.T, o *TreeOpts, l geom.Layout, depth int, kinds []string) *mo
 	}
 	g := &model.G{Kind: kind}
 	n := countMany(t, o, o.MaxParts, "nmembers")
-	for i := 0; i < n; i++ {
+	if n >= 255 {
+		// hundreds of members of one to three sorts (a member-less collection four times
+		// in ten): whatever a decoder or encoder counts per member, per collection opened
+		// or per collection closed reaches the hundreds, which hundreds of members of
+		// random sorts do not give for any one sort
+		k := rapid.SampledFrom([]int{1, 1, 2, 3}).Draw(t, "palette")
+		var pal []model.G
+		for i := 0; i < k; i++ {
+			ml := l
+			if o.MixLayouts {
+				ml = Layout(t, o.Layouts)
+			}
+			if depth-1 > 0 && pct(t, 40, "paletteEmptyGC") {
+				e := model.G{Kind: model.GeometryCollection}
+				if o.FixEmptyCollections || pct(t, 50, "fixempty") {
+					e.Layout = int(ml)
+				}
+				pal = append(pal, e)
+			} else {
+				pal = append(pal, *tree(t, o, ml, depth-1, kinds))
+			}
+		}
+		for i := 0; i < n; i++ {
+			g.Members = append(g.Members, *pal[i%k].Clone())
+		}
+	}
+	for i := len(g.Members); i < n; i++ {
 		ml := l
 		if o.MixLayouts {
 			ml = Layout(t, o.Layouts)
